@@ -64,6 +64,8 @@ type stepOpts struct {
 	builders    bool              // strings.Builder as a String accumulator (Reset / WriteString / String)
 	rangeOracle map[string]string // map type -> external that gives the (unspecified) order in which a locally built map is ranged over
 	sortStable  bool              // sort.SliceStable(xs, func(i, j int) bool {…}) with a comparator over xs[i], xs[j]
+	// phase 8 (gotrans_cp.go)
+	closedAssert bool // x, ok := c.(*T) for T a member of the closed sum c's interface type is; a reference to a map entry passed as a value
 }
 
 type methodExt struct {
@@ -183,6 +185,11 @@ func (c *fnCtx) stepExpr(e ast.Expr, want *gty) (string, *gty, bool) {
 	}
 	if u.step.intPtr || u.step.builders {
 		if s, t, ok := c.tcExpr(e, want); ok {
+			return s, t, true
+		}
+	}
+	if u.step.closedAssert {
+		if s, t, ok := c.cpExpr(e, want); ok {
 			return s, t, true
 		}
 	}
@@ -370,6 +377,9 @@ func (c *fnCtx) stepStmt(ind int, s ast.Stmt) bool {
 		return true
 	}
 	if (c.u.step.builders || c.u.step.sortStable) && c.tcStmt(ind, s) {
+		return true
+	}
+	if c.u.step.closedAssert && c.cpStmt(ind, s) {
 		return true
 	}
 	switch v := s.(type) {
